@@ -300,7 +300,36 @@ func runC07(c *Ctx) {
 				break
 			}
 		}
-		ps = append(append(append(ps, fx[:cut]...), genPrograms(c.Rng, ngen)...), fx[cut:]...)
+		ps = append(ps, fx[:cut]...)
+		// error-raising instruction kinds x positions: every tier runs all of them through the no-panic oracle
+		// (nopanicBlock); a seed-dependent sample (thorough: all) also goes through every cancellation point
+		ep := errorPrograms()
+		stride := 9
+		if c.Tier != "quick" {
+			stride = 1
+		}
+		for i := int(c.Seed % uint64(stride)); i < len(ep); i += stride {
+			ps = append(ps, ep[i])
+		}
+		ps = append(append(ps, genPrograms(c.Rng, ngen)...), fx[cut:]...)
+	}
+	if !fetchEnabled {
+		if len(c.Args) == 0 {
+			nopanicBlock(c)
+			sp := stdctxPrograms()
+			if c.Tier == "quick" { // a seed-dependent third of the programs; all context kinds and modes
+				var q []prog
+				for i, p := range sp {
+					if i < 3 || (i+int(c.Seed))%3 == 0 {
+						q = append(q, p)
+					}
+				}
+				sp = q
+			}
+			stdctxBlock(c, sp)
+		} else {
+			stdctxBlock(c, ps)
+		}
 	}
 	seen := map[string]bool{}
 	type result struct {
@@ -357,6 +386,14 @@ func finishEarly(c *Ctx) {
 		}
 	}
 	os.Exit(0)
+}
+
+func parseInput(src string) any {
+	var input any
+	if err := json.Unmarshal([]byte(src), &input); err != nil {
+		panic(err)
+	}
+	return normalize(input)
 }
 
 // json.Unmarshal gives float64 numbers; gojq wants int where integral
